@@ -458,11 +458,12 @@ def bias_gelu(draw):
 def _rotate_half_rope(g, x, cos4, sin4, half, end2, P):
     s0 = g.i64([0])
     x1 = g.op("Slice", x, s0, g.i64([half]), g.i64([3]), g.i64([1]))
-    x2 = g.op("Slice", x, g.i64([half + (1 if P.get("near_miss") == "gap_split" else 0)]), g.i64([end2]), g.i64([3]), g.i64([1]))
+    x2 = g.op("Slice", x, g.i64([half]), g.i64([end2]), g.i64([3]), g.i64([1]))
     neg = g.op("Neg", x2)
     rot = g.op("Concat", neg, x1, axis=-1)
     a = g.op("Mul", x, cos4)
     b = g.op("Mul", rot, sin4)
+    P["_interior"] = rot
     return g.op("Add", a, b)
 
 
@@ -480,7 +481,9 @@ def _cos_sin_from_positions(g, draw, P, B, S, Bs, Ss, E, dt):
         pos = g.inp("position_ids", np.int64, [pBs, Ss], [pB, S], kind="pos_ids", max=P["max_pos"], mode=P["pos_mode"])
     else:
         pos = g.inp("position_ids", np.int64, [Ss], [S], kind="pos_ids", max=P["max_pos"], mode=P["pos_mode"])
-    if P["inv_freq_form"] == "const3d":
+    if P.get("near_miss") == "inv_freq_input":
+        inv3 = g.inp("inv_freq", np.float32, [1, E, 1], [1, E, 1], kind="positive")
+    elif P["inv_freq_form"] == "const3d":
         inv3 = g.const(inv.reshape(1, E, 1))
     else:
         inv3 = g.op("Unsqueeze", g.const(inv), g.i64([0, 2]))
@@ -506,9 +509,12 @@ def rotary(draw):
     mode = draw(st.sampled_from(["inputs", "cache", "cache", "partial"]))
     Dh = draw(st.sampled_from([2, 4, 8, 16] + ([3] if mode == "inputs" else [])))
     half = Dh // 2
-    nm = draw(st.sampled_from([None] * 6 + ["gap_split", "extra_consumer", "x_rank3"] + (["pos_batch1", "inv_freq_input"] if mode != "inputs" else [])))
-    if nm == "gap_split" and Dh < 4:
-        nm = None
+    nm = draw(st.sampled_from([None] * 6 + ["unequal_split", "extra_consumer"] + (["pos_batch1", "inv_freq_input"] if mode != "inputs" else [])))
+    if nm == "unequal_split":
+        if Dh < 4:
+            nm = None
+        else:
+            half = half - 1  # rotate by unequal parts: valid ONNX, not the rotate-half the fused op implements
     P = {"dtype": dt.name, "B": B, "S": S, "H": H, "Dh": Dh, "sym": sym, "mode": mode, "near_miss": nm, "const_style": g.const_style,
          "end2": draw(st.sampled_from(["Dh", "max"]))}
     end2 = Dh if P["end2"] == "Dh" else INT64_MAX
@@ -531,13 +537,11 @@ def rotary(draw):
                   "pos_const": draw(st.integers(0, 4)) == 0, "pos_start": draw(st.sampled_from([0, 0, 5])),
                   "max_pos": draw(st.sampled_from([8, 16, 40])), "pos_mode": draw(st.sampled_from(["arange", "arange", "random"])),
                   "inv_freq_form": draw(st.sampled_from(["const3d", "unsqueeze"])), "inv_expand": draw(st.integers(0, 3)) == 0,
-                  "pos_batch1": nm == "pos_batch1"})
+                  "pos_batch1": nm == "pos_batch1", "near_miss": nm})
         P["max_pos"] = max(P["max_pos"], S)
         if nm == "inv_freq_input":
             P["inv_expand"] = False
-        cos4, sin4 = _cos_sin_from_positions(g, draw, P, B, S, Bs, Ss, half, dt)
-        if nm == "inv_freq_input":
-            pass  # handled by near-miss rewrite below (kept simple: dynamic inv_freq is covered by the repository's own test)
+        cos4, sin4 = _cos_sin_from_positions(g, draw, P, B, S, Bs, Ss, Dh // 2, dt)
     if mode == "partial":
         to_embed = g.op("Slice", x, g.i64([0]), g.i64([Dh]), g.i64([3]), g.i64([1]))
         rest_v = g.op("Slice", x, g.i64([Dh]), g.i64([INT64_MAX]), g.i64([3]), g.i64([1]))
@@ -546,8 +550,9 @@ def rotary(draw):
     else:
         y = _rotate_half_rope(g, x, cos4, sin4, half, end2, P)
     g.out(y, dt, xsshape)
+    interior = P.pop("_interior")
     if nm == "extra_consumer":
-        g.out(cos4, dt, [None, 1, None, Dh] if mode != "inputs" else csshape)
+        g.out(interior, dt, [Bs, H, Ss, Dh])
     return Host("rotary_embedding", g, P, nm)
 
 
@@ -744,7 +749,7 @@ def fused_matmul(draw):
         dt = np.dtype(np.int32)
     ta, tb = draw(st.booleans()), draw(st.booleans())
     div = draw(st.sampled_from(["none", "none", "scalar0d", "scalar1", "scalar11"]))
-    tout = rank == 2 and draw(st.integers(0, 3)) == 0
+    tout = rank == 2 and nm != "div_rank3" and draw(st.integers(0, 3)) == 0
     src_fused = dt != np.dtype(np.int32) and draw(st.integers(0, 3)) == 0  # source already uses com.microsoft.FusedMatMul
     P = {"dtype": dt.name, "rank": rank, "M": M, "K": K, "N": N, "batch": batch, "transA": ta, "transB": tb, "div": div, "t_out": tout,
          "near_miss": nm, "perm_attr": draw(st.booleans()), "src_fused": src_fused, "const_style": g.const_style,
@@ -765,17 +770,18 @@ def fused_matmul(draw):
             return v
         perm = list(range(rank))
         perm[-1], perm[-2] = perm[-2], perm[-1]
-        if nm == "perm_other" and rank >= 3 and batch[0] == (cols if rank == 3 else batch[0]):
-            pass
         if rank == 2 and not P["perm_attr"]:
             return g.op("Transpose", v)
         return g.op("Transpose", v, perm=perm)
 
-    a = operand("a", M, K, ta)
-    b = operand("b", K, N, tb)
     if nm == "perm_other" and rank == 3:
         # a is stored as [M, batch, K] and brought to [batch, M, K]: not a last-two swap, must not become transA
-        a = g.op("Transpose", g.inp("a2", dt, [M, batch[0], K], [M, batch[0], K], kind=kind), perm=[1, 0, 2])
+        a = g.op("Transpose", g.inp("a", dt, [M, batch[0], K], [M, batch[0], K], kind=kind), perm=[1, 0, 2])
+    else:
+        if nm == "perm_other":
+            nm = P["near_miss"] = None
+        a = operand("a", M, K, ta)
+    b = operand("b", K, N, tb)
     if src_fused:
         attrs = {}
         if P["alpha"] != 1.0:
@@ -848,11 +854,12 @@ def instance_to_group_norm(draw):
     if nm == "bias_not_zero":
         b[-1] = 0.5
     inorm = g.op("InstanceNormalization", adj, g.const(w), g.const(b), epsilon=P["eps"])
-    back = g.op("Reshape", inorm, g.i64([N, C, Hh, W]))
+    oshape = [N, C, Hh * W, 1] if nm == "shape_mismatch" else [N, C, Hh, W]
+    back = g.op("Reshape", inorm, g.i64(oshape))
     wf = g.const((rs.standard_normal((C, 1, 1)) + 1.0).astype(dt))
     bf = g.const(rs.standard_normal((C, 1, 1)).astype(dt))
     y = g.op("Add", g.op("Mul", back, wf), bf)
-    g.out(y, dt, [N, C, Hh, W])
+    g.out(y, dt, oshape)
     return Host("instance_to_group_normalization", g, P, nm)
 
 
